@@ -270,7 +270,9 @@ CHECKS = {
                        "offset order, tiling [0, min(written, signed)) on the signed block grid without gaps, FILE wounds exactly on differing blocks. "
                        "Second stage: the pool driven by its real caller - a generated patch applied through a pool bowl over a ValidatingPool "
                        "with the new build's signature, old build optionally damaged: whatever reaches the underlying pool must be the signed "
-                       "content or a block-aligned prefix of it; undamaged => nil and complete."),
+                       "content or a block-aligned prefix of it; undamaged => nil and complete; a recording bowl keeps the data handed to the pool bowl per file "
+                       "(Write payloads, or the old file a Transpose copies): if it has a bad block by the model, some call into the bowl (Transpose, Write, Close) must return an "
+                       "error, and if a call into the bowl failed the application must not return nil - a rejection nobody hears of checks nothing."),
         "level_note": "wounds emitted for blocks beyond the signed length are outside the statement and ignored by the tiling oracle.",
         "rule": ("rapid draws (files, written variants, slicings, mode). Non-trivial: a write that straddles a block boundary together with a bad "
                  "block that is not the first (error mode), or a differing block that is not the first (wound modes). Distinct: SHA-1 of the spec."),
@@ -313,7 +315,8 @@ CHECKS = {
                        "Second stage: the same generated cases driven through the writer's real caller, the overlay bowl (GetWriter, EntryWriter.Resume/Save/Write/"
                        "Finalize, Commit): after a Save the session either dies at once or goes on for one more write (and possibly one more Save) before it dies; a "
                        "brand-new bowl resumes from the gob copy of the saved checkpoint - the bowl, not the harness, positions the old-file reader and the staged "
-                       "overlay file. Oracles: Save/Resume/Tell offsets == bytes written; committed file == new."),
+                       "overlay file; a second overlaid file is part of the same commit, so the one applier context of Commit is used twice. Oracles: Save/Resume/Tell offsets == bytes written; "
+                       "both committed files == new. The direct stage likewise applies every overlay to two copies of the old file with ONE OverlayPatchContext."),
         "level_note": "the old-file reader never returns short reads (bytes.Reader / os.File), like the readers the overlay bowl uses.",
         "rule": ("rapid draws (entropy, runs, cuts, slices, actions). Non-trivial: the overlay contains >=1 SKIP and >=1 FRESH and the run had a "
                  "flush or a session break. Distinct: SHA-1 of the spec."),
@@ -393,7 +396,8 @@ CHECKS = {
         "title": "Archive then extract gives the same tree for any concurrency and resume point",
         "level": "fault_enumeration",
         "technique": "rapid property-based testing of zip/tar round trips with a gated io.ReaderAt that constructs out-of-order completion, plus enumeration of crash points in a re-executed child process; race-detector stage",
-        "level_text": ("Generated trees (nested and empty dirs, empty files, symlinks, many small files, one large file among small ones); zip "
+        "level_text": ("Generated trees (nested and empty dirs, empty files, symlinks, many small files, one large file among small ones; names mostly from a tiny alphabet, rarely odd but legal "
+                       "ones: consecutive dots, leading/trailing dot, blank, non-ASCII, #, %41); zip "
                        "(archiver.CompressZip with stored entries, or - one third - containerarchiver.CompressZip from the walked container with deflated entries) x "
                        "Concurrency in {-1, 0, 1..16}; tar; GOMAXPROCS 1/2/3 in a quarter of the ungated cases, and a stage whose processes are confined to ONE usable CPU "
                        "(taskset; runtime.NumCPU()==1, where 'all cores but one' is zero). The io.ReaderAt handed to ExtractZip delays the first data read of a chosen entry until N "
